@@ -525,6 +525,12 @@ func (vc *VC) globalAddr(g *ssa.Global) string {
 }
 
 func (vc *VC) globalValue(g *ssa.Global) string {
+	if g.Pkg != nil {
+		if c, ok := vc.eng.constGlobals[g.Pkg.Pkg.Path()+"."+g.Name()]; ok {
+			vc.usedSpecs["package-level variables initialised with constants keep their value (no store outside init: scanned)"] = true
+			return c
+		}
+	}
 	et := g.Type().(*types.Pointer).Elem()
 	name := "GV!" + sanitize(strings.ReplaceAll(g.String(), repoMod+"/", ""))
 	s := vc.eng.types.sortOf(et)
